@@ -117,6 +117,12 @@ def run(ck: Check) -> None:
         back.append((v, w))
         if not proto.deep_equal(v, w):
             ck.violation("parsing the canonical bytes does not give the value back", {"value": proto.enc(v)[:800], "parsed": proto.enc(w)[:800]}, "roundtrip")
+    # values outside the JSON universe are refused (TypeError), whatever the kind
+    for r in ck.run_cases([Case("ser", [x], tag="ser-non-json") for x in [proto.Opaque(0), proto.Opaque(1), proto.Opaque(2), b"x", bytearray(b"x"), proto.KeyObj(False, bytes(32))]],
+                          "corr:canonserialize/bytes"):
+        ck.oracle_checks += 1
+        if r.impl != "E ArgError":
+            ck.violation("a value outside the JSON universe was serialized instead of being refused", {"impl": r.impl[:100]}, "ser-non-json")
     res = ck.run_cases([Case("ser", [w], tag="ser-reparsed") for _, w in back], "corr:canonserialize/bytes")
     for (v, w), r in zip(back, res):
         ck.oracle_checks += 1
